@@ -86,3 +86,18 @@ def snapLevel (li : Seg → Box → Bool) (g : Grid) (hot : Nat → Quad → Boo
   | l + 1 =>
     (snapLevel li g hot L l).flatMap fun p =>
       (findIntersectingQuadrants li L (fun q => hot (l + 1) (p.child q)) (g.parent l p)).map p.child
+
+/-! ## the index: deepest addresses and hot sets -/
+
+/-- deepest address of a coordinate pair after the F2 repair (floor division); `none` = OutsideGridError -/
+def deepestAddr (g : Grid) (p : Pt) : Option Quad :=
+  let ax := Int.fdiv (p.x - g.minX) g.res
+  let ay := Int.fdiv (p.y - g.minY) g.res
+  let size : Int := 2 ^ g.depth
+  if ax < 0 ∨ ay < 0 ∨ ax > size - 1 ∨ ay > size - 1 then none else some ⟨ax.toNat, ay.toNat⟩
+
+/-- `insertCoord`: the pixel of a deepest address on level `l` -/
+def Quad.up (a : Quad) (g : Grid) (l : Nat) : Quad := ⟨a.x / 2 ^ (g.depth - l), a.y / 2 ^ (g.depth - l)⟩
+
+/-- the per-level maps after inserting the addresses `addrs` -/
+def hotOf (g : Grid) (addrs : List Quad) : Nat → Quad → Bool := fun l p => addrs.any fun a => a.up g l == p
